@@ -891,6 +891,29 @@ fn deep_c05(g: &Arc<Grammar>, d: usize, max_depth: usize, cfgs: &[Cfg]) -> Box<d
         }),
     })
 }
+fn wide_c05(g: &Arc<Grammar>, sizes: &[usize], cfgs: &[Cfg]) -> Box<dyn Family> {
+    Box::new(progs::WideFamily {
+        label: "c05".to_string(),
+        g: g.clone(),
+        sizes: sizes.to_vec(),
+        cfgs: cfgs.to_vec(),
+        f: Box::new(move |_g, toks, c, ctx| {
+            use crate::layout::{self, Base};
+            let mut first = true;
+            for b in [Base::L0, Base::L1] {
+                if !first {
+                    ctx.sub_eval();
+                }
+                first = false;
+                let x = layout::render(toks, &layout::base_gaps(toks, b));
+                let out = ctx.fmt(c, &x);
+                if o2::c02(&x, &out, c, ctx) {
+                    o2::c05(&x, toks, &out, c, ctx);
+                }
+            }
+        }),
+    })
+}
 fn deep_c06(g: &Arc<Grammar>, d: usize, max_depth: usize, cfgs: &[Cfg]) -> Box<dyn Family> {
     Box::new(progs::DeepFamily {
         label: "c06".to_string(),
@@ -1282,13 +1305,14 @@ pub fn families(check: &str, tier: &str) -> Vec<Box<dyn Family>> {
             let c05q: Vec<Cfg> = C_QUICK.iter().copied().filter(|c| c.wrap >= 30).collect();
             let c05f: Vec<Cfg> = full.iter().copied().filter(|c| c.wrap >= 30).collect();
             if quick {
-                vec![c05_family(&g(2), 2, &c05q, false, false), c05_family(&g(1), 1, &c05q[..3], true, true), c05_family_mode(&g(2), 2, &c05q[..2], false, 2), deep_c05(&g(1), 1, 16, &c05q[..3])]
+                vec![c05_family(&g(2), 2, &c05q, false, false), c05_family(&g(1), 1, &c05q[..3], true, true), c05_family_mode(&g(2), 2, &c05q[..2], false, 2), deep_c05(&g(1), 1, 16, &c05q[..3]), wide_c05(&g(1), &[6000], &c05q[..1])]
             } else {
                 vec![
                     c05_family(&g(3), 3, &c05q[..3], false, false),
                     c05_family(&g(2), 2, &c05f, true, false),
                     c05_family(&g(2), 2, &c05q[..2], false, true),
                     deep_c05(&g(1), 1, 24, &c05q),
+                    wide_c05(&g(1), &[1000, 6000, 20000], &c05q[..3]),
                     deep_c05(&g(2), 2, 8, &c05q[..2]),
                 ]
             }
